@@ -285,6 +285,12 @@ func (o *origin) advance() {
 		}
 		o.answered++
 	}
+	// a request the script does not know (one that should never have been forwarded) is answered like any
+	// origin would, so that a proxy that keeps relaying shows it to the client
+	for o.answered >= c.M && o.answered < o.nreq && !o.stop {
+		o.enqueue(qitem{data: []byte("HTTP/1.1 200 OK\r\nX-Unscripted: 1\r\nContent-Length: 0\r\n\r\n"), splits: []int{1 << 30}})
+		o.answered++
+	}
 	if headDue && !o.stop && o.answered == idx {
 		o.enqueue(qitem{data: c.Resps[idx].InterimHead, splits: []int{1 << 30}})
 		o.interimSent[idx] = true
@@ -472,8 +478,8 @@ func clip(s string, n int) string {
 func witness(c *caseSpec, out *outcome) map[string]any {
 	w := map[string]any{"case": c}
 	if out != nil {
-		w["origin_received"] = clip(fmt.Sprintf("%q", out.originGot), 6000)
-		w["client_received"] = clip(fmt.Sprintf("%q", out.clientGot), 6000)
+		w["origin_received"] = clip(fmt.Sprintf("%q", out.originGot), 4000)
+		w["client_received"] = clip(fmt.Sprintf("%q", out.clientGot), 4000)
 		w["handle_err"] = fmt.Sprint(out.handleErr)
 		w["addr"] = out.addr
 	}
@@ -526,6 +532,14 @@ func classFeat(feat string, keep map[string]bool) string {
 	return strings.Join(out, ",")
 }
 
+// sameIdentity: same method, same path and query, same host.
+func sameIdentity(a, b *message) bool {
+	_, ap := splitTarget(a.Target)
+	_, bp := splitTarget(b.Target)
+	bh := valuesOf(b.Fields, "host")
+	return a.Method == b.Method && ap == bp && len(bh) == 1 && strings.EqualFold(bh[0], requestHost(a))
+}
+
 func depthClass(d int) string {
 	switch {
 	case d == 1:
@@ -558,8 +572,9 @@ func judge(e *core.Env, ci int, c *caseSpec, out *outcome, stalled bool) {
 	for k, q := range c.Reqs {
 		sentReq = append(sentReq, mustParse(q.Raw, fmt.Sprintf("request %d", k)))
 	}
+	var sentAtt []*message
 	for k, q := range c.Attempts {
-		mustParse(q.Raw, fmt.Sprintf("attempt %d", k))
+		sentAtt = append(sentAtt, mustParse(q.Raw, fmt.Sprintf("attempt %d", k)))
 	}
 	type xresp struct {
 		m       *message
@@ -701,6 +716,17 @@ func judge(e *core.Env, ci int, c *caseSpec, out *outcome, stalled bool) {
 	if bad != "" {
 		viol(d("malformed_forwarded_request", fmt.Sprintf("after %d requests the bytes sent to the origin do not parse: %s", len(got), bad)), "origin")
 	}
+	// the same, seen from the origin: its first request is not the one that carried valid credentials but one
+	// of the refused attempts
+	if first := append(append([]*message{}, got...), tail); len(sentAtt) > 0 && first[0] != nil && (len(sentReq) == 0 || !sameIdentity(sentReq[0], first[0])) {
+		for k, a := range sentAtt {
+			if a.Method != "CONNECT" && sameIdentity(a, first[0]) {
+				viol(d("forwarded_without_valid_credentials", fmt.Sprintf("the first request at the origin (%s %s) is failed authentication attempt %d (%s)", first[0].Method, first[0].Target, k, c.Attempts[k].Kind)), "origin")
+				rec.Class("seq:auth-bypass-observed")
+				return
+			}
+		}
+	}
 	forbidden := false
 	for k, g := range got {
 		if k >= c.M {
@@ -751,15 +777,11 @@ func judge(e *core.Env, ci int, c *caseSpec, out *outcome, stalled bool) {
 	// --- what the client received: judgement ---
 	if cbad != "" {
 		// name the last readable response: it is the one whose framing the proxy got wrong
-		after := "none"
+		after := "other"
 		if len(cgot) > 0 {
-			l := cgot[len(cgot)-1]
-			after = fmt.Sprint(l.Status)
-			if finals-1 < len(methods) && finals > 0 && methods[finals-1] == "HEAD" && l.Status/100 != 1 {
-				after = "HEAD"
-			}
-			if hasField(l.Fields, "transfer-encoding") {
-				after += "+transfer-encoding"
+			if l := cgot[len(cgot)-1]; statusHasNoBody(l.Status) && hasField(l.Fields, "transfer-encoding") {
+				// a response that cannot have a body but names a transfer coding (RFC 9112 6.1 allows it on 304)
+				after = fmt.Sprintf("%d+transfer-encoding", l.Status)
 			}
 		}
 		viol(d("malformed_response_stream", fmt.Sprintf("after %d responses the bytes sent to the client do not parse: %s", len(cgot), cbad), "after", after), "client")
@@ -898,7 +920,9 @@ func judge(e *core.Env, ci int, c *caseSpec, out *outcome, stalled bool) {
 	if c.Lag > 0 {
 		lag = "lag+"
 	}
-	rec.Class("seq:%s auth=%s depth=%s n=%s %s", sc, auth, depthClass(c.Depth), nclass, lag)
+	if !stalled {
+		rec.Class("seq:%s auth=%s depth=%s n=%s %s", sc, auth, depthClass(c.Depth), nclass, lag)
+	}
 	if nviol == 0 && ci%400 == 0 {
 		rec.Sample(6, map[string]any{"case": ci, "scenario": sc, "requests": len(c.Reqs), "forwardable": c.M, "at_origin": len(got), "at_client": len(cgot),
 			"first_request": strings.SplitN(c.reqText(0), "\r\n", 2)[0]})
